@@ -130,7 +130,7 @@ POOL = [1, 0, -3, 2 ** 40, 255, 1.5, 2.0, -0.0, float("nan"), None, "7", "x", "2
 # accepts: the element-wise probe must judge each element on its own
 DIRECTED = [[1, "x", True], [True, "x", 1], [0, "x", False, 0.0], [1.0, "x", 1, True], [1, None, "x", 7],
             # the inputs of the recorded regions (so that every listed finding is demonstrated on every run)
-            ["1 days", 1.5], ["x"], [float("nan")], [None]]
+            ["1 days", 1.5], ["x"], [float("nan")], [None], [b"b", "7"]]
 
 
 def pandas_dtypes():
@@ -283,6 +283,11 @@ def judge_trial(rep, case, name, T, fam, obj, vals, labels, cont):
         # natively typed sources are judged on the container's own clauses (shape, labels, check on the result, idempotence,
         # error class); how numpy's casts between native dtypes relate to the scalar conversions is outside this sweep
         rep.count("typed-source:scalar-oracle-clause-not-judged")
+        return
+    if what == "values-differ-from-coerce_value" and any(isinstance(x, bytes) for x in vals) and \
+            values_agree(out, [e if not isinstance(x, bytes) else ("skip", None) for e, x in zip(elem, vals)], vals):
+        # the only disagreeing elements are bytes coerced to a string type (listed region)
+        rep.property_failure(case, f"{name}: {what}", region="K_C10_bytes-to-str:values-differ-from-coerce_value")
         return
     if what:
         rep.property_failure(case, f"{name}: {what}", region=f"K_C10_{fam}:{what.split(':')[0]}")
